@@ -1504,6 +1504,165 @@ theorem pipeline_take_flatMap (g : α → List β) (k : Nat) (a : Src α) (n m :
     flatMap_refines g (a, none) n (by simpa [flatMapSpec] using hn)]
   simp [flatMapSpec]
 
+/-! ### pipelines whose outer combinator demands a fused input: the answers of a fused combinator form a
+script in which `Ended` stays (`EndStays`), and `Chain` / `ZipLongest` treat such a script like its cut -/
+
+/-- a script whose first `Ended` is followed by `Ended` only: the answers of a fused pull -/
+def EndStays : Src α → Prop
+  | [] => True
+  | .ended :: r => ∀ x ∈ r, x = Step.ended
+  | .ready _ :: r => EndStays r
+  | .pending :: r => EndStays r
+
+/-- the script up to (not including) its first `Ended` -/
+def cut : Src α → Src α
+  | [] => []
+  | .ended :: _ => []
+  | .ready x :: r => .ready x :: cut r
+  | .pending :: r => .pending :: cut r
+
+theorem aux_cut_noEnd (s : Src α) : NoEnd (cut s) := by
+  induction s with
+  | nil => exact aux_noEnd_nil
+  | cons a r ih =>
+    cases a with
+    | ended => exact aux_noEnd_nil
+    | ready x => intro y hy; simp [cut] at hy; rcases hy with rfl | hy; · simp
+                 exact ih y hy
+    | pending => intro y hy; simp [cut] at hy; rcases hy with rfl | hy; · simp
+                 exact ih y hy
+
+theorem aux_cut_items (s : Src α) : items (cut s) = items s := by
+  induction s with
+  | nil => rfl
+  | cons a r ih => cases a <;> simp [cut, items, ih]
+
+theorem aux_cut_length (s : Src α) : (cut s).length ≤ s.length := by
+  induction s with
+  | nil => simp [cut]
+  | cons a r ih => cases a <;> simp [cut] <;> omega
+
+theorem aux_allEnded_cut (r : Src α) (h : ∀ x ∈ r, x = Step.ended) : cut r = [] ∧ EndStays r := by
+  cases r with
+  | nil => simp [cut, EndStays]
+  | cons a r =>
+    have ha := h a (by simp)
+    subst ha
+    exact ⟨by simp [cut], fun x hx => h x (by simp [hx])⟩
+
+/-- pulling from a fused script and from its cut gives the same answer, and the rests correspond -/
+theorem aux_cut_pull (s : Src α) (hs : EndStays s) :
+    (cut s).pull = (cut s.pull.1, s.pull.2) ∧ EndStays s.pull.1 := by
+  cases s with
+  | nil => simp [cut, Src.pull, EndStays]
+  | cons a r =>
+    cases a with
+    | ended =>
+      have := aux_allEnded_cut r hs
+      simp [cut, Src.pull, this.1, this.2]
+    | ready x => exact ⟨by simp [cut, Src.pull], hs⟩
+    | pending => exact ⟨by simp [cut, Src.pull], hs⟩
+
+/-- two machines related by a simulation give the same outputs -/
+theorem aux_drive_sim {σ τ : Type} (step : σ → σ × Step β) (step' : τ → τ × Step β) (R : σ → τ → Prop)
+    (hsim : ∀ s t, R s t → (step s).2 = (step' t).2 ∧ R (step s).1 (step' t).1)
+    (n : Nat) (s : σ) (t : τ) (h : R s t) : drive step n s = drive step' n t := by
+  induction n generalizing s t with
+  | zero => rfl
+  | succ n ih =>
+    obtain ⟨h1, h2⟩ := hsim s t h
+    simp only [drive]
+    rcases hs : step s with ⟨s', a⟩
+    rcases ht : step' t with ⟨t', b⟩
+    rw [hs, ht] at h1 h2
+    simp only at h1 h2
+    subst h1
+    cases a <;> simp [ih _ _ h2]
+
+/-- the answers of a fused machine form a script in which `Ended` stays -/
+theorem aux_trace_endStays (step : σ → σ × Step β) (n : Nat) (s : σ) (h : FusedAt step s) :
+    EndStays (trace step n s) := by
+  induction n generalizing s with
+  | zero => simp [trace, EndStays]
+  | succ n ih =>
+    have hshift : FusedAt step (step s).1 := by
+      intro k hk j
+      have := h (k + 1) hk j
+      have e : k + 1 + 1 + j = (k + 1 + j) + 1 := by omega
+      rw [e] at this; exact this
+    simp only [trace]
+    rcases h0 : (step s).2 with x | _ | _
+    · exact ih _ hshift
+    · exact ih _ hshift
+    · intro y hy
+      have hmem : ∀ (m : Nat) (s' : σ) (y : Step β), y ∈ trace step m s' → ∃ j, y = (step (after step j s')).2 := by
+        intro m
+        induction m with
+        | zero => intro s' y hy; simp [trace] at hy
+        | succ m ihm =>
+          intro s' y hy
+          simp only [trace, mem_cons] at hy
+          rcases hy with rfl | hy
+          · exact ⟨0, rfl⟩
+          · obtain ⟨j, hj⟩ := ihm _ y hy
+            exact ⟨j + 1, hj⟩
+      obtain ⟨j, rfl⟩ := hmem n _ y hy
+      have := h 0 h0 j
+      have e : 0 + 1 + j = j + 1 := by omega
+      rw [e] at this; exact this
+
+/-- `Chain` only needs its first input to *behave* fused: a script in which `Ended` stays can be cut at its first `Ended` -/
+theorem aux_chain_cut (a b : Src α) (ha : EndStays a) (n : Nat) :
+    drive chainStep n (a, b) = drive chainStep n (cut a, b) := by
+  refine aux_drive_sim chainStep chainStep (fun s t => EndStays s.1 ∧ t = (cut s.1, s.2)) ?_ n (a, b) (cut a, b) ⟨ha, rfl⟩
+  rintro ⟨a, b⟩ _ ⟨ha, rfl⟩
+  obtain ⟨hp, he⟩ := aux_cut_pull a ha
+  simp only [chainStep, hp]
+  rcases hpa : a.pull with ⟨a', (x | _ | _)⟩ <;> rw [hpa] at he <;> simp_all
+
+/-- `chain_refines` for a first input that behaves fused (e.g. the answers of a fused combinator) -/
+theorem chain_refines_endStays (a b : Src α) (ha : EndStays a) (n : Nat) (h : a.length + b.length < n) :
+    drive chainStep n (a, b) = items a ++ items b := by
+  rw [aux_chain_cut a b ha, chain_refines (cut a) b (aux_cut_noEnd a) n (by have := aux_cut_length a; omega),
+    aux_cut_items]
+
+/-- `chain(fuse(a), skip k b)` — `a` may report `Ended` prematurely (that is what `fuse` is for) -/
+theorem pipeline_chain_fuse_skip (k : Nat) (a b : Src α) (n n' m : Nat)
+    (hn : a.length < n) (hn' : b.length < n') (hm : n + n' < m) :
+    drive chainStep m (trace fuseStep n (some a), trace skipStep n' (b, k)) = items a ++ (items b).drop k := by
+  rw [chain_refines_endStays _ _ (aux_trace_endStays _ _ _ (fuse_fused _)) m (by simp [aux_trace_length]; omega),
+    aux_trace_items, aux_trace_items, fuse_refines a n hn, skip_refines b k n' hn']
+
+/-- `ZipLongest` only needs its inputs to *behave* fused -/
+theorem aux_zipLongest_cut (st : ZipSt α β) (hl : EndStays st.l) (hr : EndStays st.r) (n : Nat) :
+    drive zipLongestStep n st = drive zipLongestStep n ⟨cut st.l, cut st.r, st.buf⟩ := by
+  refine aux_drive_sim zipLongestStep zipLongestStep
+    (fun s t => EndStays s.l ∧ EndStays s.r ∧ t = ⟨cut s.l, cut s.r, s.buf⟩) ?_ n st _ ⟨hl, hr, rfl⟩
+  rintro ⟨l, r, buf⟩ _ ⟨hl, hr, rfl⟩
+  obtain ⟨hpl, hel⟩ := aux_cut_pull l hl
+  obtain ⟨hpr, her⟩ := aux_cut_pull r hr
+  simp only at hl hr
+  rcases buf with _ | a | b <;> simp only [zipLongestStep, zipPulls, hpl, hpr] <;>
+    rcases hpl' : l.pull with ⟨l', (x | _ | _)⟩ <;> rcases hpr' : r.pull with ⟨r', (y | _ | _)⟩ <;>
+    rw [hpl'] at hel <;> rw [hpr'] at her <;> simp_all
+
+theorem zipLongest_refines_endStays (l : Src α) (r : Src β) (hl : EndStays l) (hr : EndStays r) (n : Nat)
+    (h : l.length + r.length < n) :
+    drive zipLongestStep n ⟨l, r, none⟩ = zipLongest (items l) (items r) := by
+  rw [aux_zipLongest_cut _ hl hr, zipLongest_refines _ (aux_cut_noEnd l) (aux_cut_noEnd r) n (by
+    have := aux_cut_length l; have := aux_cut_length r; simp; omega)]
+  simp [zipLongestSpec, aux_cut_items]
+
+/-- `zip_longest(fuse(take_while p a), enumerate b)` — `b` fused as `ZipLongest` demands of `Enumerate<B>` -/
+theorem pipeline_zipLongest_fuse_takeWhile_enumerate (p : α → Bool) (a : Src α) (b : Src β) (hb : NoEnd b)
+    (n0 n n' m : Nat) (hn0 : a.length < n0) (hn : n0 < n) (hn' : b.length < n') (hm : n + n' < m) :
+    drive zipLongestStep m ⟨trace fuseStep n (some (trace (takeWhileStep p) n0 a)), trace enumerateStep n' (b, 0), none⟩ =
+      zipLongest ((items a).takeWhile p) (enumFrom 0 (items b)) := by
+  rw [zipLongest_refines_endStays _ _ (aux_trace_endStays _ _ _ (fuse_fused _))
+      (aux_trace_endStays _ _ _ (enumerate_fused b 0 hb)) m (by simp [aux_trace_length]; omega),
+    aux_trace_items, aux_trace_items, fuse_refines _ n (by simp [aux_trace_length]; omega), aux_trace_items,
+    takeWhile_refines p a n0 hn0, enumerate_refines b 0 n' hn']
+
 /-! ### non-vacuity: concrete instances of the hypotheses and of the statements -/
 
 /-- a fused script with pendings between the items -/
@@ -1554,5 +1713,11 @@ example : drive crossStep 10 (⟨[.ready 1, .ready 2], [.pending, .ready 9, .rea
 
 /-- take is fused even over an unfused input -/
 example : FusedAt takeStep (([.ready 1, .ended, .ready 2] : Src Nat), 5) := take_fused _ _
+
+/-- the answers of `fuse` over an unfused script: `Ended` stays; chained with a second input -/
+example : trace fuseStep 4 (some ([.ready 3, .ended, .ready 1] : Src Nat)) = [.ready 3, .ended, .ended, .ended] := by
+  decide
+example : drive chainStep 9 (trace fuseStep 4 (some ([.ready 3, .ended, .ready 1] : Src Nat)),
+    trace skipStep 4 (([.ready 7, .pending, .ready 8] : Src Nat), 1)) = [3, 8] := by decide
 
 end HvPull
